@@ -109,11 +109,11 @@ def preload():
 
 # the five Hyperband types with an interpolated quantile lose pairs to excluded_roundoff: twice the share
 CYCLE = KINDS + ["hyperband_stopping", "hyperband_promotion", "hyperband_pasha", "hyperband_rush_stopping",
-                 "hyperband_rush_promotion"]
+                 "hyperband_rush_promotion", "moasha"]
 
 
 def n_cases(tier):
-    return len(CYCLE) * (34 if tier == "quick" else 715)  # 714 / 15015
+    return len(CYCLE) * (34 if tier == "quick" else 690)  # 748 / 15180
 
 
 def cases(tier, seed):
@@ -131,6 +131,8 @@ def floors(tier):
     out["decided:suggestion"] = 5000 if tier == "quick" else 120000
     out["decided:ranking"] = 5000 if tier == "quick" else 120000
     out["decided:best_configuration"] = 200 if tier == "quick" else 5000
+    out["sync_burst:fewer_valid_than_slots_reached_with_>=2_valid"] = 5 if tier == "quick" else 100
+    out["moasha:completions_of_sparse_reporters_before_max_t"] = 50 if tier == "quick" else 1000
     return out
 
 
@@ -219,6 +221,11 @@ def expand(spec):
         p["support_pause_resume"] = rng.random() < 0.7
         if kind == "dehb":
             p["fail_rate"] = 0.0  # DEHB after a failed trial is known-broken (C05-K3)
+        else:
+            # burst of failures in the first rung of the first bracket (before the first report), sized so that
+            # 2 <= #valid results < #slots of the next rung where possible: get_top_list's fallback branch
+            p["burst"] = rng.random() < 0.4
+            p["burst_seed"] = rng.randint(0, 10**6)
     elif kind == "pbt":
         p["space"] = gen.small_space(rng, ensure_infinite=True, ordinal_kinds=("equal",))
         p["max_t"] = rng.randint(6, 20)
@@ -257,6 +264,19 @@ def expand(spec):
         p["brackets"] = rng.randint(1, 3)
         p["priority"] = rng.choice(["default", "default", "linear", "fixed"])
         _common(rng, p, workers=(2, 8), trials=(10, 40), events=(150, 450))
+        # training scripts that finish on their own before the scheduler's max_t, sparse reporters (every
+        # k-th level / once at the end: the completion path then records in a lower rung), mixed-sign values
+        rungs = []
+        while p["grace_period"] * p["reduction_factor"] ** len(rungs) <= p["max_t"]:
+            rungs.append(p["grace_period"] * p["reduction_factor"] ** len(rungs))
+        p["script_epochs"] = None
+        if len(rungs) >= 2 and rungs[1] < p["max_t"] and rng.random() < 0.8:
+            # long enough to pass two rung levels, shorter than the scheduler's max_t
+            p["script_epochs"] = rng.randint(rungs[1], p["max_t"] - 1)
+        p["strides"] = rng.choice([None, [1, 1, 3], [1, 2], [1, 100, 1], [100, 1, 2, 100], [2, 3, 100], [100, 1], [100, 100, 1]])
+        p["max_trials"] = rng.randint(20, 50)
+        p["max_events"] = rng.randint(200, 500)
+        p["offset"] = rng.choice([0.0, 0.45, 0.45])
     elif kind == "reporting":
         p["n_metrics"] = rng.randint(1, 3)
         p["n_trials"] = rng.randint(2, 10)
@@ -820,8 +840,10 @@ def run_pair(spec, o):
     max_t = p["max_t"]
     tables = [gen.Curves(p["curves"], spec["seed"] + 1 + 101 * j, max_t) for j in range(len(metrics))]
     if kind == "moasha":
+        off = p.get("offset", 0.0)
+
         def value_fn(tid, level, config=None):
-            return {m: tables[j](tid, level) for j, m in enumerate(metrics)}
+            return {m: tables[j](tid, level) - off for j, m in enumerate(metrics)}
     else:
         value_fn = tables[0]
     extra_fn = None
@@ -846,8 +868,26 @@ def run_pair(spec, o):
         for tid in range(200):
             if frng.random() < p["fail_rate"]:
                 fail[str(tid)] = [frng.choice([0, 0, 1]), frng.randint(0, 2)]
+    burst_next = None
+    if p.get("burst") and not p.get("fail"):
+        try:
+            rungs0 = [tuple(x) for x in a.bracket_manager.bracket_rungs[0]]
+        except Exception:  # noqa: BLE001
+            rungs0 = []
+        if len(rungs0) >= 2:
+            brng = random.Random(p["burst_seed"])
+            size0, size1 = rungs0[0][0], rungs0[1][0]
+            if size1 >= 3 and size0 > size1:
+                n_valid = brng.randint(2, size1 - 1)
+            else:
+                n_valid = max(1, size0 - int(math.ceil(size0 * brng.uniform(0.6, 0.85))))
+            for tid in brng.sample(range(size0), size0 - n_valid):
+                fail[str(tid)] = [0, 0]
+            burst_next = (n_valid, size1)
+            o.count("sync_burst_plans")
     vp = {
-        "n_workers": p["n_workers"], "max_t": max_t, "metric": metrics[0], "resource_attr": "epoch",
+        "n_workers": p["n_workers"], "max_t": p.get("script_epochs") or max_t, "metric": metrics[0], "resource_attr": "epoch",
+        "strides": p.get("strides"),
         "policy": p["policy"], "seed": spec["seed"] + 2, "max_trials": p["max_trials"],
         "max_events": p["max_events"], "order": p.get("order"), "max_resource_attr": mra,
         "checkpointing": p.get("checkpointing", True), "fail": fail,
@@ -906,6 +946,15 @@ def run_pair(spec, o):
     if vt.raised and port.ended is None:
         # protocol break reported by the virtual tuner (e.g. resume of a non-paused trial): same in both runs
         o.count(f"ended_by_protocol_break:{kind}")
+        if burst_next is not None and vt.raised[1] == "resume_of_non_paused" and vt.raised[3] == "failed":
+            # C13-K2: with fewer valid results than slots a failed trial is resumed; normal end for both twins
+            o.count("sync_burst:fewer_valid_than_slots_reached")
+            if burst_next[0] >= 2:
+                o.count("sync_burst:fewer_valid_than_slots_reached_with_>=2_valid")
+    if kind == "moasha":
+        sparse_done = sum(1 for ev in vt.events if ev[0] == "complete" and vt.trials[ev[1]].stride > 1
+                          and ev[3] < max_t)
+        o.count("moasha:completions_of_sparse_reporters_before_max_t", sparse_done)
     ended = port.ended or "compared_to_the_end"
     o.count("ended:" + ended)
     if port.ended is None:
